@@ -167,7 +167,9 @@ func kill(p process, name string, deadline time.Time) error {
 		// Negative pid sends signal to all in process group
 		syscall.Kill(-pgid, syscall.SIGKILL)
 	} else {
-		syscall.Kill(p.pid, syscall.SIGKILL)
+		// the leader is gone already; the process was started as the leader of its own group
+		// (Setpgid), so the group, which may still have members, is addressed by the leader's pid
+		syscall.Kill(-p.pid, syscall.SIGKILL)
 	}
 
 	ctx, cancel := context.WithDeadline(context.Background(), deadline)
@@ -228,7 +230,8 @@ func (s *LocalSupervisor) Terminate(ctx context.Context, req *model.TerminateReq
 		// best effort, ignore errors
 		_ = syscall.Kill(-pgid, syscall.SIGTERM)
 	} else {
-		_ = syscall.Kill(pid, syscall.SIGTERM)
+		// see kill(): the group outlives its leader and is addressed by the leader's pid
+		_ = syscall.Kill(-pid, syscall.SIGTERM)
 	}
 
 	return nil
